@@ -899,27 +899,39 @@ func (s *Subscription) loadAccess(cb func(*rescache.Access), t *rescache.Throttl
 
 	if t != nil {
 		t.Add(func() {
-			s.c.Access(s, func(access *rescache.Access) {
-				s.c.Enqueue(func() {
-					if s.state == stateDisposed {
-						s.failAccessCallbacks()
-						return
-					}
+			// The request may have waited in the throttle. Start it from the
+			// connection's goroutine, and not at all if the connection has
+			// been closed or the subscription disposed meanwhile.
+			if !s.c.Enqueue(func() {
+				if s.state == stateDisposed {
+					s.failAccessCallbacks()
+					t.Done()
+					return
+				}
+				s.c.Access(s, func(access *rescache.Access) {
+					s.c.Enqueue(func() {
+						if s.state == stateDisposed {
+							s.failAccessCallbacks()
+							return
+						}
 
-					cbs := s.accessCallbacks
-					s.flags &= ^flagAccessCalled
-					// Only store in case of an actual result or system.accessDenied error
-					if access.Error == nil || access.Error.Code == reserr.CodeAccessDenied {
-						s.access = access
-					}
-					s.accessCallbacks = nil
+						cbs := s.accessCallbacks
+						s.flags &= ^flagAccessCalled
+						// Only store in case of an actual result or system.accessDenied error
+						if access.Error == nil || access.Error.Code == reserr.CodeAccessDenied {
+							s.access = access
+						}
+						s.accessCallbacks = nil
 
-					for _, cb := range cbs {
-						cb(access)
-					}
+						for _, cb := range cbs {
+							cb(access)
+						}
+					})
+					t.Done()
 				})
+			}) {
 				t.Done()
-			})
+			}
 		})
 	} else {
 		s.c.Access(s, func(access *rescache.Access) {
